@@ -21,13 +21,13 @@ ASSUMPTIONS = ["termination and in-bounds are THEOREMS only for the modelled ker
                "out-of-bounds reads in interpreted mode wrap silently: they are caught indirectly, by the other properties' "
                "exact correspondence with models in which an out-of-range read returns a default value",
                "compiled (JIT) execution is out of scope (C07 not applicable); NUMBA_BOUNDSCHECK is therefore not used"]
-MUST_OK = {"add_pits_dup_use", "add_pits_dup_xy_use"}       # valid arguments: any exception is a failure
+MUST_OK = {"add_pits_dup_use", "add_pits_dup_xy_use", "from_array_ldd_out", "from_array_d8_out", "from_array_d8", "from_array_nextxy", "from_array_infer"}       # valid arguments: any exception is a failure
 MUTATORS = {"add_pits", "repair_loops", "order_cells", "set_transform"}
 # operations whose documented domain includes networks with loops (everything that walks a path needs a loop-free one)
 LOOP_OK = {"order_walk", "order_sort", "rank", "isvalid", "idxs_pit", "nnodes", "n_upstream", "idxs_us_main", "ncells", "idxs_seq", "area",
            "distnc", "mask", "strahler", "classic", "uparea_cell", "uparea_km2", "accuflux", "accuflux_down", "basins", "basin_outlets",
            "fill_up", "fill_down", "downstream", "upstream_sum", "stream_distance", "hand", "to_array_d8", "to_array_ldd", "to_array_nextxy",
-           "inflow", "outflow", "repair_loops", "add_pits", "dump_load", "from_array_d8", "from_array_nextxy", "from_array_infer"}
+           "inflow", "outflow", "repair_loops", "add_pits", "dump_load", "from_array_d8", "from_array_nextxy", "from_array_infer", "from_array_ldd_out", "from_array_d8_out"}
 
 
 def cases(tier, rng):
@@ -72,6 +72,11 @@ def _build_ops(nr, nc, ds, rng):
     I["frc"] = R([rng.randint(1, 3) for _ in range(n)]).astype(np.float32)
     I["depths"] = np.array([1.0, 5.0], dtype=np.float32)
     I["regions"] = R([1 + (i // nc * 2 // max(nr, 1)) * 2 + (i % nc * 2 // max(nc, 1)) for i in range(n)]).astype(np.int32)
+    # river slopes with zeros, nodata and values below the minimum slope (they are limited, not overwritten)
+    I["slp"] = R([rng.choice([0.0, -9999.0, 1e-7, 1e-3, 5e-3]) for _ in range(n)]).astype(np.float64)
+    # legal rasters of every format whose edge cells point out of the raster (= outlets)
+    I["ldd_out"] = R([rng.choice([2, 1, 3, 6]) for _ in range(n)]).astype(np.uint8)          # S, SW, SE, E
+    I["d8_out"] = R([rng.choice([4, 2, 8, 1]) for _ in range(n)]).astype(np.uint8)           # S, SE, SW, E
     I["xs"] = np.array([0.5 + (i % nc) for i in I["starts"]], dtype=np.float64)
     I["ys"] = np.array([-0.5 - (i // nc) for i in I["starts"]], dtype=np.float64)
     cs = rng.choice([1, 2, 3])
@@ -115,6 +120,7 @@ def _build_ops(nr, nc, ds, rng):
         ("subgrid_rivlen", lambda f: f.subgrid_rivlen(f.ucat_outlets(cs))), ("subgrid_rivlen_mask", lambda f: f.subgrid_rivlen(f.ucat_outlets(cs), mask=I["mask"], direction="down")),
         ("subgrid_rivslp", lambda f: f.subgrid_rivslp(f.ucat_outlets(cs), I["elv"])), ("subgrid_rivslp_min", lambda f: f.subgrid_rivslp(f.ucat_outlets(cs), I["elv"], length=1, direction="up", method="min")),
         ("river_depth", lambda f: f.river_depth(I["full"] * 20, I["full"] * 10, rivslp=I["full"] * 1e-3, min_rivdph=0.5)),
+        ("river_depth_slp", lambda f: f.river_depth(I["full"] * 20, I["full"] * 10, rivslp=I["slp"], min_rivdph=0.5)),
         ("river_depth_zs", lambda f: f.river_depth(I["full"] * 20, I["full"] * 10, zs=I["elv"], rivdst=f.distnc * 1000.0)),
         ("river_depth_gvf", lambda f: f.river_depth(I["full"] * 20, I["full"] * 10, zs=10.0 + f.distnc * 1.0, rivdst=f.distnc * 1000.0, method="gvf")),
         ("subgrid_rivavg", lambda f: f.subgrid_rivavg(f.ucat_outlets(cs), I["elv"])), ("subgrid_rivmed", lambda f: f.subgrid_rivmed(f.ucat_outlets(cs), I["elv"])),
@@ -138,6 +144,7 @@ def _build_ops(nr, nc, ds, rng):
         ("dump_load", lambda f: _dump_load(f)),
         ("vector_class", lambda f: _vector(Flwdir, f, I)),
         ("from_array_d8", lambda f: pyflwdir.from_array(f.to_array("d8"))), ("from_array_nextxy", lambda f: pyflwdir.from_array(f.to_array("nextxy"), ftype="nextxy")),
+        ("from_array_ldd_out", lambda f: pyflwdir.from_array(I["ldd_out"], ftype="ldd")), ("from_array_d8_out", lambda f: pyflwdir.from_array(I["d8_out"], ftype="d8")),
         ("from_array_infer", lambda f: pyflwdir.from_array(f.to_array("ldd"), ftype="infer")),
         ("from_dem", lambda f: pyflwdir.from_dem(I["elv_nodata"], nodata=-9999)), ("from_dem_min", lambda f: pyflwdir.from_dem(I["elv_nodata"], nodata=-9999, outlets="min")),
         ("fill_default", lambda f: dem.fill_depressions(I["elv_nodata"], nodata=-9999)),
